@@ -23,11 +23,45 @@ TEST_POINTS = [
 
 def main():
     jobs = json.load(sys.stdin)
+    import multiprocessing
+    import os
+    n = min(12, os.cpu_count() or 2, max(1, len(jobs) // 4))
+    if n > 1:
+        chunks = [jobs[i::n] for i in range(n)]
+        with multiprocessing.get_context("fork").Pool(n) as pool:
+            parts = pool.map(solve, chunks)
+        out = {}
+        for p_ in parts:
+            out.update(p_)
+    else:
+        out = solve(jobs)
+    json.dump(out, sys.stdout)
+
+
+def peel(x, y):
+    """Pairs of corresponding arguments under common uninterpreted function heads; None if the heads differ."""
+    from sympy.core.function import AppliedUndef
+    if isinstance(x, AppliedUndef) or isinstance(y, AppliedUndef):
+        if not (isinstance(x, AppliedUndef) and isinstance(y, AppliedUndef)) or x.func.__name__ != y.func.__name__ or len(x.args) != len(y.args):
+            return None
+        out = []
+        for a_, b_ in zip(x.args, y.args):
+            p_ = peel(a_, b_)
+            if p_ is None:
+                return None
+            out += p_
+        return out
+    return [(x, y)]
+
+
+def solve(jobs):
     out = {}
     for job in jobs:
         u = sp.Symbol("u", positive=True)
         vpos = sp.Symbol("v_", positive=True)
-        env = {"u": u, "pi": sp.pi, "ln": sp.log, "log": sp.log, "exp": sp.exp, "sqrt": sp.sqrt, "tan": sp.tan, "Rational": sp.Rational}
+        env = {"u": u, "pi": sp.pi, "ln": sp.log, "log": sp.log, "exp": sp.exp, "sqrt": sp.sqrt, "tan": sp.tan, "Rational": sp.Rational,
+               "eps_": sp.Symbol("eps_", positive=True), "minpos_": sp.Symbol("minpos_", positive=True), "maxval_": sp.Symbol("maxval_", positive=True),
+               "log1p_": (lambda x: sp.log(1 + x))}
         names = []
         for name, kind in job["symbols"].items():
             env[name] = sp.Symbol(name, positive=(kind == "positive"), real=True)
@@ -72,6 +106,37 @@ def main():
             except Exception:      # noqa: BLE001
                 diffs.append(None)
                 continue
+            # uninterpreted constructors (Result_Ok(LogNormal(Normal_new(mu, sigma)))): equal iff the heads agree and the arguments are equal
+            pairs = peel(term, a)
+            if pairs is None:
+                diffs.append(sp.Integer(1))          # different heads / arities: certainly different
+                continue
+            if len(pairs) > 1 or pairs[0] != (term, a):
+                allz = True
+                worst = None
+                for (x_, y_) in pairs:
+                    dd = (x_ - y_).subs(u, vpos / (1 + vpos))
+                    z_ = False
+                    for f in (lambda q: sp.simplify(q), lambda q: sp.simplify(sp.powsimp(sp.expand_log(q, force=True), force=True))):
+                        try:
+                            if f(dd) == 0:
+                                z_ = True
+                                break
+                        except Exception:     # noqa: BLE001
+                            pass
+                    if not z_:
+                        allz = False
+                        worst = dd
+                        break
+                if allz:
+                    if verdict != "equal":
+                        verdict, form, detail = "equal", i, "all arguments of accepted[%d] are equal" % i
+                    eq_forms.append(i)
+                    if job.get("variant_of") is None:
+                        break
+                    continue
+                diffs.append(worst)
+                continue
             d = term - a
             # 0 < u < 1 is made explicit by u = v/(1+v), v > 0 (so that 1 - u is known to be positive)
             d = d.subs(u, vpos / (1 + vpos))
@@ -114,7 +179,8 @@ def main():
                         scale_ = 1
                         if job.get("relative"):
                             try:
-                                scale_ = 1 + abs(sp.N(term.subs(u, vpos / (1 + vpos)).subs(vals), 20))
+                                sc_ = sp.N(term.subs(u, vpos / (1 + vpos)).subs(vals), 20)
+                                scale_ = 1 + abs(sc_) if sc_.is_number else 1
                             except Exception:      # noqa: BLE001
                                 scale_ = 1
                         if v.is_number and abs(v) > (sp.Float("1e-9") * scale_ if job.get("relative") else sp.Float("1e-25")):
@@ -131,7 +197,7 @@ def main():
             else:
                 detail = "no accepted form shown equal, and not refuted"
         out[job["id"]] = {"verdict": verdict, "form": form, "forms": eq_forms, "detail": detail, "term": str(term)}
-    json.dump(out, sys.stdout)
+    return out
 
 
 main()
